@@ -77,6 +77,16 @@ func genC16(seed uint64, tier string) *world.Scenario {
 		}
 		sc.Horizon = sec(2*total + 20) // room for whatever repeats
 	}
+	if tr := kernel.NewRand(seed, "c16.notach"); tr.Bool(0.2) {
+		// the tachometer input of one fan disappears after discovery and before its controller starts (the
+		// driver stops exposing fanN_input): such a fan is swept but has no RPM curve to measure - and still
+		// takes its turn like every other fan
+		f := sc.Fans[tr.Intn(len(sc.Fans))]
+		sc.Env = append(sc.Env, world.EnvEvent{Kind: "remove", At: ms(300), Path: fmt.Sprintf("@W@/hw/%s/fan%d_input", sc.Chips[f.Chip].Dir, f.Channel)})
+		if sc.Variant == "" {
+			sc.Variant = "fan-without-tachometer"
+		}
+	}
 	if r.Bool(0.2) {
 		// long analyses: full 256-step drivers and a rotor that coasts for a long time before
 		// the first measurement (analysis of one fan takes ~5-6 virtual minutes)
@@ -160,7 +170,7 @@ func (o *c16Oracle) Finish(st *stage.Stage, res *check.Result) {
 		res.Probe("analysis-writes-outside-the-named-functions")
 	}
 	if analysed < 2 {
-		if len(st.Sc.Faults) > 0 {
+		if len(st.Sc.Faults) > 0 || len(st.Sc.Env) > 0 {
 			res.Probe("fewer-than-2-analyses(fault)")
 			return
 		}
